@@ -247,6 +247,13 @@ func init() {
 							q = int64(1)<<62 - 1 - int64(rng.Intn(1000))
 						}
 					}
+					if rng.Intn(6) == 0 { // the very last keys of a zoom: 4^zoom - 1 - (0..300) — at zoom 31 they lie within one
+						// float64 spacing (512) of 2^62, every one of them a valid key
+						q = int64(1)<<uint(2*qz) - 1 - int64(rng.Intn(300))
+						if q < 0 {
+							q = 0
+						}
+					}
 					if qz == 31 && rng.Intn(3) == 0 { // keys of the upper half of the zoom-31 grid
 						q = int64(1)<<61 + rng.Int63n(int64(1)<<61)
 						if rng.Intn(2) == 0 {
